@@ -120,8 +120,8 @@ def rule_pure_observers(ctx, only_timestamps=False):
         except Exception:
             pass
         for e in tr:
-            if e[0] == 'write' and e[1] in ('unsync::cache::Cache', 'sync::base_cache::Inner', 'sync::base_cache::BaseCache', 'sync::cache::Cache') and \
-                    e[2] not in allowed_f and not only_timestamps:
+            # (the concurrent observers take `&self`: a plain field write is impossible there, its shared cells are covered by F2 / F4 / F5)
+            if e[0] == 'write' and kind == 'unsync' and e[1] == 'unsync::cache::Cache' and e[2] not in allowed_f and not only_timestamps:
                 bad.append(('state-write', '%s.%s' % (e[1].split('::')[-1], e[2]), e))
         # F3 recency
         for role, fns in (('move-to-back', R.move), ('push-back', R.push)):
